@@ -35,6 +35,28 @@ theorem op_eq_den {ρ : Type} (E : Env) (hE : E.lenprefixLeak = false) (fetch : 
     | .ok (some (p, d)) => Op.run E fetch fuel r s pos = .ok (some p, s.extend d) :=
   run_agree E hE fetch fuel r s pos
 
+/-- **depth_balanced.**  `down1` / `up1` are balanced on every path of every opcode: whenever `peg_rule` returns (match or
+    no match) the recursion budget `s->depth` is what it was on entry; the only other way out is a raised error
+    (`janet_panic`, state discarded).  So the budget bounds the NESTING depth, never the amount of work, and a failing
+    branch cannot leak or release budget.  (The syntactic counterpart on the current peg.c is `Tie.depth_exits_balanced`.) -/
+theorem depth_balanced {ρ : Type} (E : Env) (hE : E.lenprefixLeak = false) (fetch : ρ → Option (Instr ρ))
+    (fuel : Nat) (r : ρ) (s : St) (pos : Nat) :
+    (∃ e, Op.run E fetch fuel r s pos = .error e) ∨
+    (∃ res s', Op.run E fetch fuel r s pos = .ok (res, s') ∧ s'.depth = s.depth) := by
+  have h := op_eq_den E hE fetch fuel r s pos
+  revert h
+  cases Den.run E fetch fuel r s pos with
+  | error e => intro h; exact Or.inl ⟨e, h⟩
+  | ok v =>
+    cases v with
+    | none => intro h; obtain ⟨s', h1, hle⟩ := h; exact Or.inr ⟨none, s', h1, hle.depth⟩
+    | some pd => obtain ⟨p, d⟩ := pd; intro h; exact Or.inr ⟨some p, _, h, rfl⟩
+
+/-- the budget is really consumed by nesting: a sub-rule called below `down1` runs with one unit less, and with one unit
+    left the call raises "recursed too deeply" instead of recursing -/
+theorem depth_exhaustion (s : St) (h : s.depth ≤ 1) : down1 s = .error .depth := by
+  simp [down1, h]
+
 /-- what `cap_load` does after a failed sub-rule: the state is exactly the one saved before it -/
 theorem capLoad_restores {s s' : St} (h : s.le s') : capLoad s' (capSave s) = s := capLoad_of_le h
 
